@@ -67,6 +67,11 @@ func genPCfg(r *rng, kind string, pf pProfile) pcfg {
 	if pf.bigWin && r.chance(70) {
 		c.f["WindowSize"] = bs + r.rangeIn(0, 9)
 	}
+	if r.chance(3) {
+		// the largest windows Verify accepts (the window is independent of the buffer): offsets are
+		// computed in 32-bit types in places
+		c.f["WindowSize"] = r.pick(1<<32-8, 1<<32-9, 1<<31, 1<<31-1, 1<<31+5, 1<<32-8-bs)
+	}
 	c.f["BlockSize"] = r.rangeIn(1, 48)
 	if r.chance(10) {
 		c.f["BlockSize"] = r.rangeIn(bs, bs+20)
@@ -131,6 +136,9 @@ func genPCfg(r *rng, kind string, pf pProfile) pcfg {
 		mn := r.rangeIn(2, 5)
 		c.f["MinMatchLen"] = mn
 		c.f["MaxMatchLen"] = r.pick(mn, mn+1, mn+r.intn(18), 273, 0)
+		if r.chance(6) {
+			c.f["MaxMatchLen"] = r.pick(1<<31-1, 1<<31, 1<<32, 1<<32+4, 1<<62) // Verify puts no upper bound on it
+		}
 		c.cost = r.pickS("", "XZCost")
 	}
 	if r.chance(pf.badCfgPct) {
